@@ -604,6 +604,9 @@ def stream_generic(ctx):
             impls.append(r[1])
             kinds.append("elemop")
             ctx.branch("generic.elemop.repeat" if repeat else f"generic.elemop.lead{len(lead)}")
+            ro = call_impl(oracle_elemop, gen)
+            for what, key in (ro[1] if ro[0] == "ok" else [(f"elemop oracle raises: {ro[2]}", None)]):
+                ctx.oracle_fail(what, {"op": "elemop", **gen}, key=key)
         if not repeat:
             y = _rand_int_arr(rng, lead + (dom.nel,), -4, 4)
             r = call_impl(run_nodalop, g, EM, y)
@@ -897,7 +900,40 @@ def corpus_witness(ctx):
 # ------------------------------------------------------------------------------------------------
 # search / replay
 # ------------------------------------------------------------------------------------------------
+def oracle_elemop(gen):
+    """ElementOperation by its documented definition, with plain loops over elements / local nodes / dofs:
+    full operator (..., #dofs_per_element):  y[..., e] = sum_k B[..., k] u[dofconn[e, k]]
+    per-node operator (..., #nodes_per_element) with ndof > 1:  y[i, ..., e] = sum_n B[..., n] u[ndof*conn[e, n] + i]"""
+    g, ndof, repeat = gen["grid"], gen["ndof"], gen["repeat"]
+    EM, u = np.array(gen["EM"], dtype=float), np.array(gen["u"], dtype=float)
+    dom = mk_dom(g)
+    y = np.asarray(run_elemop(g, EM, u), dtype=float)
+    lead = EM.shape[:-1]
+    conn = np.asarray(dom.conn)
+    if repeat:
+        want = np.zeros((ndof,) + lead + (dom.nel,))
+        for e in range(dom.nel):
+            for i in range(ndof):
+                for n in range(dom.elemnodes):
+                    want[(i,) + (Ellipsis, e)] += EM[..., n] * u[ndof * conn[e, n] + i]
+    else:
+        want = np.zeros(lead + (dom.nel,))
+        for e in range(dom.nel):
+            for n in range(dom.elemnodes):
+                for i in range(ndof):
+                    want[..., e] += EM[..., n * ndof + i] * u[ndof * conn[e, n] + i]
+    if y.shape != want.shape:
+        return [(f"ElementOperation output has shape {list(y.shape)}, its definition gives {list(want.shape)} "
+                 f"(operator {list(EM.shape)}, {ndof} dofs per node)", None)]
+    if not np.abs(y - want).max() <= _tol(np.abs(want).max()):
+        return [(f"ElementOperation output differs from y = B u_e (max deviation {np.abs(y - want).max():.3e}; operator {list(EM.shape)}, "
+                 f"{ndof} dofs per node, {'per-node operator' if repeat else 'full operator'})", None)]
+    return []
+
+
 def _oracle_for(gen, op):
+    if op == "elemop":
+        return oracle_elemop(gen)
     if op == "fields":
         return oracle_fields(gen["grid"], gen["mat"], np.array(gen["G"], dtype=float), np.array(gen["c"], dtype=float), gen["x"])
     if op == "average":
@@ -922,6 +958,8 @@ def _op_of(gen, stream):
         return "thermo"
     if "y" in gen:
         return "transpose"
+    if "EM" in gen and "u" in gen and "repeat" in gen:
+        return "elemop"
     return None
 
 
@@ -974,7 +1012,7 @@ def replay(ctx, data):
         nn = w["grid"]["dim"]
         bad = abs(float(y[nn, 0]) - eps[nn]) > 1e-12
         return {"still_failing": bool(bad), "what": f"gamma = {float(y[nn, 0])}, engineering shear {float(eps[nn])}"}
-    if op in ("fields", "average", "thermo", "transpose", "sens"):
+    if op in ("fields", "average", "thermo", "transpose", "sens", "elemop"):
         if op == "fields" and "mat" not in w:
             w = {**w, "mat": {"E": 1.0, "nu": 0.3, "plane": "strain"}}
         r = call_impl(_oracle_for, w, op)
